@@ -32,6 +32,18 @@ CLAIMED = {
         technique='Lean 4 theorems (per-key factorisation of dictionary updates) + before/after snapshots + single-key re-runs on the implementation',
         text='A per-key update run over a dictionary is proved to change each key independently (foldl_putKey_key, insertWith_key, filterMeta_key); on the implementation every merge/subset input is snapshotted before and after and every result is compared with the result of inputs restricted to one key.',
         design='DESIGN.md §7 C13', note=BASE_NOTE + ' Aliasing of nested mutable values (Python object identity) is runtime and only probed.'),
+    'C07': dict(
+        technique='Lean 4 one-step validity theorems (make_empty, merge, subset, simplify) + random API-operation chains checked after every step',
+        text='make_empty is proved to create exactly the base dictionaries its valid classes need and to refuse bad shapes / slice dims; merge (slice, time), subset (slice, time, vector) and simplify are proved to produce key states of the right class and count for every size; on the implementation random chains of split / merge / filter / clear / JSON reload / file save+load are checked after every step with check_valid, to_json and geometry against the image.',
+        design='DESIGN.md §7 C07', note=BASE_NOTE + ' The closure over arbitrary op sequences is established by the search, not by an induction in Lean (only one-step lemmas are proved); nibabel file I/O is trusted.'),
+    'C08': dict(
+        technique='Lean 4 theorems about the executable model of get_meta / meta_valid + exhaustive-index differential correspondence',
+        text='For every matched image and in-bounds index get_meta is proved to return the value at proj(class, slice, time, vector); without index only constants; wrong-length / out-of-range indices raise; any stated mismatch returns the default. The model is compared with NiftiWrapper.get_meta on all keys x all in-bounds indices (+ bad indices) of generated extensions under image perturbations.',
+        design='DESIGN.md §7 C08', note=BASE_NOTE + ' The float comparison of slice directions (np.allclose, atol 1e-6) is a Boolean parameter of the model.'),
+    'C10': dict(
+        technique='Lean 4 iff theorem between the transcribed check_valid and the declarative rule set + refutation of the full-strength iff (finding F6) + corruption correspondence',
+        text='check_valid (as decision logic over an abstraction of the content) is proved to accept iff the rules hold with the count rule imposed on multiplicities > 1; each rule violation is proved rejected; the full-strength iff is refuted by a kernel-checked witness (F6) and proved outside multiplicity-1 classes. All single and sampled double corruptions of generated extensions are run through from_json and NiftiWrapper(img) and through the model.',
+        design='DESIGN.md §7 C10', note=BASE_NOTE + ' The abstraction function (content -> Content record) is part of the trusted harness.'),
 }
 
 ALL = ['C%02d' % i for i in range(1, 21)]
